@@ -913,7 +913,15 @@ func (d *BasicDirectory) GetCidBuilder() cid.Builder {
 
 // switchToSharding returns a HAMT implementation of this directory.
 func (d *BasicDirectory) switchToSharding(ctx context.Context, opts ...DirectoryOption) (*HAMTDirectory, error) {
-	hamtDir, err := NewHAMTDirectory(d.dserv, 0, opts...)
+	// Count the size change of the new HAMTDirectory from just above the
+	// sharding threshold: it is then negative exactly when the estimated size
+	// is at or below the threshold, whichever entry (or MaxLinks) triggered
+	// the conversion, and needsToSwitchToBasicDir does not miss a switch back.
+	sizeChange := 0
+	if shardingSize := d.getEffectiveShardingSize(); shardingSize > 0 {
+		sizeChange = d.estimatedSize - shardingSize - 1
+	}
+	hamtDir, err := NewHAMTDirectory(d.dserv, sizeChange, opts...)
 	if err != nil {
 		return nil, err
 	}
@@ -1015,15 +1023,21 @@ func (d *HAMTDirectory) getEffectiveShardingSize() int {
 
 // AddChild implements the `Directory` interface.
 func (d *HAMTDirectory) AddChild(ctx context.Context, name string, nd ipld.Node) error {
+	newChild, err := ipld.MakeLink(nd)
+	if err != nil {
+		return err
+	}
+	newChild.Name = name
+
 	oldChild, err := d.shard.Swap(ctx, name, nd)
 	if err != nil {
 		return err
 	}
 
 	if oldChild != nil {
-		d.removeFromSizeChange(oldChild.Name, oldChild.Cid)
+		d.removeFromSizeChange(oldChild)
 	}
-	d.addToSizeChange(name, nd.Cid())
+	d.addToSizeChange(newChild)
 	if oldChild == nil {
 		d.totalLinks++
 	}
@@ -1064,7 +1078,7 @@ func (d *HAMTDirectory) RemoveChild(ctx context.Context, name string) error {
 	}
 
 	if oldChild != nil {
-		d.removeFromSizeChange(oldChild.Name, oldChild.Cid)
+		d.removeFromSizeChange(oldChild)
 		d.totalLinks--
 	}
 
@@ -1110,12 +1124,14 @@ func (d *HAMTDirectory) switchToBasic(ctx context.Context, opts ...DirectoryOpti
 	return basicDir, nil
 }
 
-func (d *HAMTDirectory) addToSizeChange(name string, linkCid cid.Cid) {
-	d.sizeChange += linksize.LinkSizeFunction(name, linkCid)
+// The size change is tracked in the unit of the size estimation mode, the one
+// needsToSwitchToBasicDir and sizeBelowThreshold compare it with.
+func (d *HAMTDirectory) addToSizeChange(link *ipld.Link) {
+	d.sizeChange += d.linkSizeFor(link)
 }
 
-func (d *HAMTDirectory) removeFromSizeChange(name string, linkCid cid.Cid) {
-	d.sizeChange -= linksize.LinkSizeFunction(name, linkCid)
+func (d *HAMTDirectory) removeFromSizeChange(link *ipld.Link) {
+	d.sizeChange -= d.linkSizeFor(link)
 }
 
 // Evaluate a switch from HAMTDirectory to BasicDirectory in case the size will
